@@ -58,7 +58,7 @@ class Ctx:
             a = self.coverage.setdefault(k, [0, 0])
             a[0] += t
             a[1] += g
-        missing = [a for a in required_actions if res.coverage.get(a, (0, 0))[0] == 0]
+        missing = [a for a in required_actions if res.coverage.get(a, (0, 0))[1] == 0]
         if missing:
             raise CheckError("MODEL-BROKEN (vacuity): actions never taken in %s %s: %s" % (module, cfg, missing))
         self.models.append({"spec": "%s/%s" % (spec_dir, module), "cfg": cfg, "distinct": res.distinct,
